@@ -38,11 +38,11 @@ def _b(x):
 
 def _state(inp, obs):
     pre = obs["pre"]
-    vals = "[%s]" % "; ".join("mkVal %d %s %s" % (v["id"], _b(v["bonded"]), _z(v["power"])) for v in pre["order"])
+    vals = "[%s]" % "; ".join("mkVal %d%%nat %s %s" % (v["id"], _b(v["bonded"]), _z(v["power"])) for v in pre["order"])
     votes = "[%s]" % "; ".join(
-        "mkAVote %d [%s]" % (v["voter"], "; ".join("(%d, %s)" % (t["p"], _z(t["r"])) for t in v["t"]))
+        "mkAVote %d%%nat [%s]" % (v["voter"], "; ".join("(%d%%nat, %s)" % (t["p"], _z(t["r"])) for t in v["t"]))
         for v in inp["votes"])
-    rates = "[%s]" % "; ".join("mkRate %d %s %s" % (r["p"], _z(r["r"]), _z(r["c"])) for r in inp["rates"])
+    rates = "[%s]" % "; ".join("mkRate %d%%nat %s %s" % (r["p"], _z(r["r"]), _z(r["c"])) for r in inp["rates"])
     wl = "[%s]" % "; ".join("%d%%nat" % w for w in inp["wl"])
     return "(mkState %s %d%%nat %s %s %s %s %s)" % (vals, pre["maxv"], _z(pre["btok"]), _z(pre["pr"]), wl, votes, rates)
 
@@ -55,7 +55,7 @@ def to_coq_case(rec):
         out = "Panic"
     else:
         out = "(Done [%s] [%s])" % (
-            "; ".join("mkRate %d %s %s" % (r["p"], _z(r["r"]), _z(r["c"])) for r in obs["rates"]),
+            "; ".join("mkRate %d%%nat %s %s" % (r["p"], _z(r["r"]), _z(r["c"])) for r in obs["rates"]),
             "; ".join("(%d%%nat, %s)" % (e["p"], _z(e["r"])) for e in obs["events"]))
     return "(mkCase %s %s %s %s)" % (params, _state(inp, obs), _z(inp["h"]), out)
 
